@@ -202,6 +202,11 @@ func (ex *Exec) applyTerm(st *State, f Term, k int, args []Val, rsort string) Te
 	ts := []Term{f}
 	for _, a := range args {
 		if a.Kind != VTerm {
+			if t, ok := ex.closureTerm(st, a); ok {
+				ts = append(ts, t)
+				sorts = append(sorts, SortInt)
+				continue
+			}
 			ts = append(ts, IntLit(0))
 			sorts = append(sorts, SortInt)
 			continue
@@ -382,9 +387,8 @@ func (ex *Exec) applyContract(st *State, fr *Frame, ct *Contract, key string, ar
 		}
 	}
 	for _, e := range ct.Ensures {
-		if !ex.active(e.Props) {
-			continue
-		}
+		// callee postconditions are assumed whatever property they are tagged
+		// with: they are discharged in the callee's own verification
 		t, err := ex.evalSpecBool(e.Expr, post)
 		if err != nil {
 			ex.errors = append(ex.errors, fmt.Sprintf("%s: ensures %s of %s: %v", funcKey(ex.top), e.Label, key, err))
